@@ -12,7 +12,9 @@
 //       P:<t>                   peek read_next(checkpoint=false)            (must return log[pos] or None; changes nothing)
 //       X:<t>:<budget>:<chk>    stateful batch_read_for_topic(budget, chk, None)
 //       S:<t>:<budget>:<chk>:<off> stateless batch read at byte offset <off> (must change nothing)
-//       O                       drop the instance and reopen the same directory
+//       O                       drop the instance and reopen the same directory (30 ms later); OI: reopen immediately
+//       D:<t> / C:<t>           mark_topic_dirty / mark_topic_clean; after every op and every reopen topic_is_clean must
+//                               equal the state set by the latest append (dirty) / mark on that topic
 //       K:<key>                 (first op only) use namespace key <key>
 // After every op the per-topic counts are compared with len-pos.  Output: one JSON line per scenario, then a summary.
 use std::collections::BTreeMap;
@@ -28,7 +30,7 @@ fn payload(topic: &str, seq: usize, size: usize) -> Vec<u8> {
 }
 
 #[derive(Default)]
-struct Topic { log: Vec<Vec<u8>>, pos: usize, resync: Option<usize> /* after an AtLeastOnce reopen: max redelivery */ }
+struct Topic { log: Vec<Vec<u8>>, pos: usize, dirty: bool, resync: Option<usize> /* after an AtLeastOnce reopen: max redelivery */ }
 
 fn open(dir: &PathBuf, key: &Option<String>, mode: ReadConsistency) -> std::io::Result<Walrus> {
     let sched = if std::env::var("WALRUS_REPLAY_SYNC_EACH").is_ok() { FsyncSchedule::SyncEach } else { FsyncSchedule::NoFsync };
@@ -75,7 +77,10 @@ fn run(name: &str, mode_full: &str, ops: &[&str], base: &PathBuf) -> Result<(), 
                 let p = payload(f[1], t.log.len(), f[2].parse().unwrap());
                 if let Err(e) = w.append_for_topic(f[1], &p) { return fail(format!("append failed: {e}")); }
                 t.log.push(p);
+                t.dirty = true;
             }
+            "D" => { w.mark_topic_dirty(f[1]); topics.entry(f[1].to_string()).or_default().dirty = true; }
+            "C" => { w.mark_topic_clean(f[1]); topics.entry(f[1].to_string()).or_default().dirty = false; }
             "F" => {
                 // fault injection through the LD_PRELOAD seam (replay/faultlib): F:<FSYNC|CREATE|RENAME>:<0|1>
                 unsafe { std::env::set_var(format!("WALRUS_FAULT_{}", f[1]), f[2]); }
@@ -86,7 +91,8 @@ fn run(name: &str, mode_full: &str, ops: &[&str], base: &PathBuf) -> Result<(), 
                 let r = w.append_for_topic(f[1], &p);
                 for v in ["FSYNC", "CREATE", "RENAME"] { unsafe { std::env::remove_var(format!("WALRUS_FAULT_{}", v)); } }
                 if r.is_ok() { return fail("append unexpectedly succeeded".into()); }
-                topics.entry(f[1].to_string()).or_default();
+                // a rejected append may or may not leave the topic marked dirty (either is conservative): adopt what is reported
+                topics.entry(f[1].to_string()).or_default().dirty = !w.topic_is_clean(f[1]);
             }
             "EB" => {
                 // a batch append that must FAIL and leave no trace
@@ -95,7 +101,8 @@ fn run(name: &str, mode_full: &str, ops: &[&str], base: &PathBuf) -> Result<(), 
                 let r = w.batch_append_for_topic(f[1], &refs);
                 for v in ["FSYNC", "CREATE", "RENAME"] { unsafe { std::env::remove_var(format!("WALRUS_FAULT_{}", v)); } }
                 if r.is_ok() { return fail("batch append unexpectedly succeeded".into()); }
-                topics.entry(f[1].to_string()).or_default();
+                // a rejected append may or may not leave the topic marked dirty (either is conservative): adopt what is reported
+                topics.entry(f[1].to_string()).or_default().dirty = !w.topic_is_clean(f[1]);
             }
             "B" => {
                 let t = topics.entry(f[1].to_string()).or_default();
@@ -103,6 +110,7 @@ fn run(name: &str, mode_full: &str, ops: &[&str], base: &PathBuf) -> Result<(), 
                 let refs: Vec<&[u8]> = ps.iter().map(|v| v.as_slice()).collect();
                 if let Err(e) = w.batch_append_for_topic(f[1], &refs) { return fail(format!("batch append failed: {e}")); }
                 t.log.extend(ps);
+                t.dirty = true;
             }
             "R" | "P" => {
                 let t = topics.entry(f[1].to_string()).or_default();
@@ -153,9 +161,9 @@ fn run(name: &str, mode_full: &str, ops: &[&str], base: &PathBuf) -> Result<(), 
                 let off: u64 = f[4].parse().unwrap();
                 let _ = w.batch_read_for_topic(f[1], budget, chk, Some(off)).map_err(|e| format!("op #{i} stateless read error: {e}"))?;
             }
-            "O" => {
+            "O" | "OI" => {
                 drop(wal.take());
-                std::thread::sleep(std::time::Duration::from_millis(30));
+                if f[0] == "O" { std::thread::sleep(std::time::Duration::from_millis(30)); }
                 wal = Some(open(&dir, &key, mode).map_err(|e| format!("reopen failed: {e}"))?);
                 if !strict {
                     let n: usize = mode_s.trim_start_matches("alo").parse().unwrap_or(1).max(1);
@@ -165,6 +173,11 @@ fn run(name: &str, mode_full: &str, ops: &[&str], base: &PathBuf) -> Result<(), 
             _ => return fail("unknown op".into()),
         }
         let w = wal.as_ref().unwrap();
+        for (name, t) in topics.iter() {
+            if w.topic_is_clean(name) == t.dirty {
+                return fail(format!("topic {} reports clean={}, but the latest change made it {}", name, t.dirty, if t.dirty { "dirty" } else { "clean" }));
+            }
+        }
         for (name, t) in topics.iter() {
             if t.resync.is_some() || !strict && ops[..=i].contains(&"O") { continue; }
             let c = w.get_topic_entry_count(name);
